@@ -73,6 +73,25 @@ def stepC17 (s : DSt) (op : String) (got : String) : StepResult DSt :=
          { st := s, expected := (if got.startsWith "ok" then some got else some "ok"), spec := spec,
            cov := [match frames with | some 1 => "send:whole" | some 0 => "send:dropped" | some _ => "send:fragmented" | none => "send:other"] })
     | _, _ => { st := s, expected := some "bad-op" }
+  | ["close", face] =>
+    match face.toNat? with
+    | none => { st := s, expected := some "bad-op" }
+    | some fid =>
+      if fid == 1 || fid == 6 then { st := s, expected := some "skip" } else
+      if (faceGet s.st.faces fid).isNone then { st := s, expected := some "noface", spec := crashFail op got, cov := ["close:noface"] } else
+      let gotTables := parseTables gtoks
+      let ext : Ext := match gotTables with | some t => ⟨t.fib⟩ | none => ⟨s.st.fib⟩
+      let st' := faceClosed s.st ext fid
+      let spec := crashFail op got ++
+        (if got.startsWith "STUCK" then [⟨"live", "close", s!"face {fid} was closed but never left the face table: {got.take 200}"⟩] else []) ++
+        (match s.prev, gotTables with
+         | some before, some after =>
+           let want : Tables := { before with faces := faceRemove before.faces fid, rib := ribCleanFace before.rib fid }
+           if sameFaces want.faces after.faces && sameRib want.rib after.rib && sameSc want.sc after.sc && want.cs == after.cs then []
+           else [⟨"effect", "close", s!"after face {fid} closed the tables are not the old ones minus the face and its routes: {got.take 300}"⟩]
+         | _, _ => [])
+      { st := { s with st := st', prev := gotTables <|> s.prev }, expected := some ("gone " ++ tablesText (tablesOf st')),
+        spec := spec, cov := ["close:gone"] }
   | ["probe", _, _] => { st := s, expected := some "ok", spec := crashFail op got, cov := ["probe"] }
   | _ => { st := s, expected := some "bad-op" }
 
